@@ -199,7 +199,7 @@ def leg_csv_join(ns, res, spec):
             try:
                 ns.rbql.query_csv(qtext, os.path.join(cd, 'in.csv'), ',', 'quoted', os.path.join(cd, 'out.csv'), ',', 'quoted', 'utf-8', [], an is not None, prefix)
                 with open(os.path.join(cd, 'out.csv'), 'rb') as f:
-                    r = refcsv.read_text(f.read().decode('utf-8'), ',', 'quoted', 'utf-8', bool(ref.header))
+                    r = refcsv.read_text(f.read().decode('utf-8'), ',', 'quoted', None, bool(ref.header))      # as text: a leading U+FEFF of the OUTPUT is the content of its first cell
                 rows, hdr = r.records, r.header
             except Exception as e:
                 err = '%s: %s' % (util.error_class(e), str(e)[:120])
